@@ -39,6 +39,11 @@ class AddShapeH(Harness):
         for shape in ("plain", "nested-shared"):
             for sg in itertools.product((1, -1), repeat=3):
                 out.append({"shape": shape, "signs": list(sg)})
+        # the same after the receiver has answered queries that memoise (ge_polyhedron, leafs): nothing the receiver
+        # remembered about ITSELF may leak into the extended configurator
+        for shape in ("plain", "nested-shared"):
+            for sg in ((1, 1, 1), (1, -1, 1), (-1, 1, -1)):
+                out.append({"shape": shape, "signs": list(sg), "warm": True})
         return out
 
     def setup(self, c, case):
@@ -65,6 +70,10 @@ class AddShapeH(Harness):
     def run(self, c, st):
         c.nd_epoch = 1
         cfg, (r1, r2, new), cc = st["cfg"], st["rules"], st["cc"]
+        if c.state_case.get("warm"):
+            cfg.leafs()
+            cfg.ge_polyhedron
+            cfg.default_prios
         before = (list(cfg.propositions), cfg.value, cfg.sign, cfg.id)
         got = cfg.add(new)
         after = (list(cfg.propositions), cfg.value, cfg.sign, cfg.id)
@@ -94,6 +103,7 @@ class AddShapeH(Harness):
                ("add.class", type(got) is type(want)),
                ("add.default_prios", dict(got.default_prios) == dict(want.default_prios)),
                ("add.polyhedron", self._same_poly(got.ge_polyhedron, want.ge_polyhedron)),
+               ("add.leafs", [str(v.id) for v in got.leafs()] == [str(v.id) for v in want.leafs()]),
                ("add.frame", len(res["before"][0]) == len(res["after"][0]) and all(x is y for x, y in zip(res["before"][0], res["after"][0]))
                 and res["before"][1:] == res["after"][1:])]
         return out
@@ -129,6 +139,10 @@ class AddShapeH(Harness):
         violated, detail = [], {}
         r1, r2, new = build()
         cfg = cc.StingyConfigurator(r1, r2, id="cfg")
+        if w["case"].get("warm"):
+            cfg.leafs()
+            cfg.ge_polyhedron
+            cfg.default_prios
         before = cfg.to_text()
         try:
             got = cfg.add(new)
@@ -145,6 +159,9 @@ class AddShapeH(Harness):
             violated.append("add.class")
         if dict(got.default_prios) != dict(want.default_prios):
             violated.append("add.default_prios")
+        if [v.id for v in got.leafs()] != [v.id for v in want.leafs()]:
+            violated.append("add.leafs")
+            detail["leafs"] = [[str(v.id) for v in got.leafs()], [str(v.id) for v in want.leafs()]]
         try:
             pg_, pw = got.ge_polyhedron, want.ge_polyhedron
             same = np.array_equal(np.asarray(pg_), np.asarray(pw)) and [v.id for v in pg_.variables] == [v.id for v in pw.variables] \
